@@ -68,6 +68,7 @@ def plans_for(trace, reads, tier, rng, read_log=()):
 def fault_sig(plan, world=None):
     fs = plan.get("faults", [])
     return {"force": bool(world) and world.get("opts", {}).get("mode") == "force",
+            "where": (world or {}).get("meta", [{}])[0].get("where"),
             "fault_kinds": sorted({f["op"] for f in fs}), "n_faults": len(fs),
             "rename_faulted": any(f["op"] == "rename" for f in fs), "unlink_faulted": any(f["op"] == "unlink" for f in fs),
             "read_fault": bool(plan.get("read_faults")), "persistent": any(f.get("persistent") for f in fs)}
